@@ -190,6 +190,55 @@ def run_fvss(ck, prop, tier, vh, seed):
     ck.cov['traces_validated_against_impl'] = ck.cov.get('traces_validated_against_impl', 0) + nres - mism
 
 
+def run_repo_tests(ck, vh, tier):
+    """the repository's own DKG tests, recorded through the hook verifTraceDKG and validated against DKGNodeTrace.tla"""
+    import re
+    raw = vlib.subdir('repotraces')
+    env = dict(vlib.GOENV, VERIF_DKG_TRACE_DIR=raw)
+    count = '1' if tier == 'quick' else '4'
+    p = vlib.run([vlib.GO, 'test', '-tags', 'verif', '-vet=off', '-count=' + count, '-run', 'TestDKG$', '.'], env=env, cwd=vlib.REPO, timeout=3000)
+    if p.returncode != 0:
+        ck.notes.append('the repository DKG tests did not pass with the tracing hook on: %s' % p.stdout[-300:])
+        return
+    absd = vlib.subdir('repoabs')
+    vlib.run([vh, 'dkg-abstract', '--dir', raw, '--out', absd], check=True, timeout=3000)
+    total = rejected = 0
+    first = None
+    for f in sorted(glob.glob(os.path.join(absd, '*.ndjson'))):
+        kind, n, t = os.path.basename(f)[:-7].split('-')
+        cfgtxt = vlib.cfg({'FixD1': True, 'FixD2': True, 'N': int(n), 'T': int(t), 'Kind': kind, 'TraceFile': 'trace.ndjson'}, postcondition='Accepted')
+        lines = open(f).read().split('\n')
+        res = vlib.tlc(SPEC, 'DKGNodeTrace', cfgtxt, workers=1, files=[(f, 'trace.ndjson')], name='nodetrace', timeout=600)
+        m = re.findall(r'"TRACE_PREFIX", (\d+), (\d+)', res.out)
+        if not m:
+            raise vlib.Undecided('DKGNodeTrace failed to run on %s: %s' % (f, res.error))
+        pre, tot = int(m[-1][0]), int(m[-1][1])
+        total += tot
+        if pre < tot:
+            rejected += 1
+            ck.cov.setdefault('repo_test_nonconformance', []).append({'config': os.path.basename(f), 'at_event': pre + 1, 'event': json.loads(lines[pre])})
+        elif first is None:
+            first = f
+    ck.cov['repo_test_events_validated'] = total
+    ck.cov['repo_test_configs_rejected'] = rejected
+    # binding demonstration: one corrupted callback must make the validation fail
+    if first:
+        evs = [json.loads(x) for x in open(first) if x.strip()]
+        k = max(i for i, e in enumerate(evs) if e['e'] in ('HB', 'HP'))
+        evs[k]['fl'] = evs[k]['fl'] + [['disq', 0]] if not evs[k]['fl'] else []
+        bad = os.path.join(absd, 'corrupted.txt')
+        with open(bad, 'w') as fh:
+            for e in evs:
+                fh.write(json.dumps(e) + '\n')
+        kind, n, t = os.path.basename(first)[:-7].split('-')
+        cfgtxt = vlib.cfg({'FixD1': True, 'FixD2': True, 'N': int(n), 'T': int(t), 'Kind': kind, 'TraceFile': 'trace.ndjson'}, postcondition='Accepted')
+        res = vlib.tlc(SPEC, 'DKGNodeTrace', cfgtxt, workers=1, files=[(bad, 'trace.ndjson')], name='nodetraceneg', timeout=600)
+        m = re.findall(r'"TRACE_PREFIX", (\d+), (\d+)', res.out)
+        if not m or int(m[-1][0]) >= int(m[-1][1]):
+            raise vlib.Undecided('negative control: a corrupted repository-test trace was accepted by DKGNodeTrace')
+        ck.cov['negative_controls'] = ck.cov.get('negative_controls', 0) + 1
+
+
 def replay(prop, path):
     d = json.load(open(path))
     rp = d['replay']
@@ -250,6 +299,7 @@ def run(prop, tier):
     # ---- build
     vh = vlib.build_vh()
     run_fvss(ck, prop, tier, vh, seed)
+    run_repo_tests(ck, vh, tier)
     all_results = []
     per_net = {}
     for (proto, n, t, dealer, byz) in NETS[tier]:
